@@ -140,12 +140,13 @@ static pthread_mutex_t side_lock = PTHREAD_MUTEX_INITIALIZER;	/* the side-channe
 int __real_pthread_mutex_lock(pthread_mutex_t *);
 int __real_pthread_mutex_unlock(pthread_mutex_t *);
 static char exe_path[512];
+static int g_fork_fault;
 static int have_true;
 static __thread struct pr *tl_submitting;
 
 static struct {
 	uint64_t cases, requests, type_r, type_w, closes_before_start, closes_running, closes_after_exit, terms_sent, kills_sent, acks, deaths,
-		 bytes_r, bytes_w, full_escalations, schedule_checks, two_loop_cases, zombies_written_off, joint_exits, noexec_children, stops_sent, stops_reaped, conts_reaped;
+		 bytes_r, bytes_w, full_escalations, schedule_checks, two_loop_cases, zombies_written_off, joint_exits, noexec_children, submit_failures, stops_sent, stops_reaped, conts_reaped;
 } S;
 
 static struct pr *pr_by_pid(int pid)
@@ -508,6 +509,7 @@ static void joint_exit_stim(void *v)
 static void submit(struct loopthr *lt, struct pr *p)
 {
 	int fd, i;
+	uint64_t f0;
 
 	memset(p, 0, sizeof(*p));
 	p->owner = lt->idx;
@@ -547,13 +549,23 @@ static void submit(struct loopthr *lt, struct pr *p)
 	}
 	p->req->argv = p->argv;
 	p->req->type = p->typestr;
+	f0 = vt_fault_fired();
 	tl_submitting = p;
 	fd = iv_popen_request_submit(p->req);
 	tl_submitting = NULL;
 	__real_close(p->side[1]);
 	p->side[1] = -1;
 	if (fd < 0) {
-		mon_viol("C19", "submit-failed", g_method, "iv_popen_request_submit failed");
+		if (vt_fault_fired() == f0)
+			mon_viol("C19", "submit-failed", g_method, "iv_popen_request_submit failed");
+		else
+			S.submit_failures++;	/* fork() was made to fail: the request never existed, the loop must be as it was */
+		__real_close(p->side[0]);
+		p->side[0] = -1;
+		free(p->req);
+		p->req = NULL;
+		p->closed = 1;
+		p->fd_closed = 1;
 		return;
 	}
 	p->fd = fd;
@@ -733,6 +745,14 @@ static void run_case(long id, uint64_t seed)
 	atomic_store(&ilv_hash, 0x19);
 	atomic_store(&nprs, 0);
 	memset(prs, 0, sizeof(prs));
+	if (g_fork_fault) {
+		char plan[48];
+		struct rng rf;
+		rng_seed(&rf, cs, 99);
+		snprintf(plan, sizeof(plan), "fork:EAGAIN@%u", 1 + rng_n(&rf, 4));
+		vt_fault_clear();
+		vt_fault_plan(plan);
+	}
 	{
 		struct rng r0;
 		rng_seed(&r0, cs, 4711);
@@ -782,6 +802,7 @@ int main(int argc, char **argv)
 	if (readlink("/proc/self/exe", exe_path, sizeof(exe_path) - 1) < 0)
 		_exit(2);
 	g_prop = "C19";
+	g_fork_fault = (int)arg_ll(argc, argv, "--fork-fault", 0);
 	have_true = access("/bin/true", X_OK) == 0;
 	vt_init();
 	vt_set_perturb((int)arg_ll(argc, argv, "--perturb", 1));
@@ -792,11 +813,11 @@ int main(int argc, char **argv)
 		run_case(i, seed);
 	mon_printf("STAT method=%s cases=%llu requests=%llu type_r=%llu type_w=%llu closed_before_child_started=%llu closed_while_running=%llu closed_after_exit=%llu "
 		   "sigterm_sent=%llu sigkill_sent=%llu acks=%llu deaths_reaped=%llu full_escalations=%llu schedule_checks=%llu bytes_read=%llu bytes_written=%llu "
-		   "children_that_end_at_once=%llu stops_sent=%llu stops_seen_by_library=%llu continues_seen_by_library=%llu two_loop_cases=%llu joint_exit_stimuli=%llu zombies_written_off=%llu shim_quiescences=%llu time_advances=%llu violations=%d\n", g_method, (unsigned long long)S.cases, (unsigned long long)S.requests,
+		   "submits_failed_under_fork_fault=%llu children_that_end_at_once=%llu stops_sent=%llu stops_seen_by_library=%llu continues_seen_by_library=%llu two_loop_cases=%llu joint_exit_stimuli=%llu zombies_written_off=%llu shim_quiescences=%llu time_advances=%llu violations=%d\n", g_method, (unsigned long long)S.cases, (unsigned long long)S.requests,
 		   (unsigned long long)S.type_r, (unsigned long long)S.type_w, (unsigned long long)S.closes_before_start, (unsigned long long)S.closes_running,
 		   (unsigned long long)S.closes_after_exit, (unsigned long long)S.terms_sent, (unsigned long long)S.kills_sent, (unsigned long long)S.acks,
 		   (unsigned long long)S.deaths, (unsigned long long)S.full_escalations, (unsigned long long)S.schedule_checks, (unsigned long long)S.bytes_r,
-		   (unsigned long long)S.bytes_w, (unsigned long long)S.noexec_children, (unsigned long long)S.stops_sent, (unsigned long long)S.stops_reaped, (unsigned long long)S.conts_reaped, (unsigned long long)S.two_loop_cases, (unsigned long long)S.joint_exits, (unsigned long long)S.zombies_written_off, (unsigned long long)vt_stats.quiescences, (unsigned long long)vt_stats.time_advances, mon_viol_total);
+		   (unsigned long long)S.bytes_w, (unsigned long long)S.submit_failures, (unsigned long long)S.noexec_children, (unsigned long long)S.stops_sent, (unsigned long long)S.stops_reaped, (unsigned long long)S.conts_reaped, (unsigned long long)S.two_loop_cases, (unsigned long long)S.joint_exits, (unsigned long long)S.zombies_written_off, (unsigned long long)vt_stats.quiescences, (unsigned long long)vt_stats.time_advances, mon_viol_total);
 	mon_printf("DONE\n");
 	return 0;
 }
